@@ -258,6 +258,7 @@ func (c *pipeCase) run() pipeOutcome {
 	select {
 	case <-doneCh:
 	case <-time.After(20 * time.Second):
+		unmark() // reported as a hang by the caller
 		out.hang = true
 		return out
 	}
@@ -431,6 +432,10 @@ func checkPipe(e *env, prop string) {
 	}
 	e.flush()
 	wgNote.Do(func() {})
+	// real GeoPackage source and targets: an empty table, one feature, exactly one page and one more than a page (C10 and C11: it always returns)
+	for _, nf := range []int{0, 1, 3, 4} {
+		gpkgPipe(e, nf, 2+nf%2, 3)
+	}
 	if prop == "C10" {
 		// real GeoPackage targets: several runs with a few thousand features; the thorough tier adds the 30 000 x 6 run
 		for k := 0; k < e.n(3, 6); k++ {
@@ -494,13 +499,35 @@ func gpkgPipe(e *env, nfeat, ntargets, pagesize int) {
 		return res
 	}
 	mark(fmt.Sprintf("gpkg-pipe: real SourceGeopackage (%d polygon features, 5 attribute columns) through ProcessFeatures into %d real TargetGeopackages, page size %d", nfeat, ntargets, pagesize))
-	processing.ProcessFeatures(source, targets, f)
+	op := fmt.Sprintf("gpkg-pipe: %d features, 5 attribute columns incl. DATETIME and DATE (cap 8), %d real GeoPackage targets, page size %d", nfeat, ntargets, pagesize)
+	returned := make(chan string, 1)
+	go func() {
+		defer func() {
+			if rec := recover(); rec != nil {
+				returned <- fmt.Sprint(rec)
+			}
+		}()
+		processing.ProcessFeatures(source, targets, f)
+		returned <- ""
+	}()
+	select {
+	case p := <-returned:
+		unmark()
+		if p != "" {
+			r.count("gpkg-pipe", op, true)
+			r.violation(Violation{Oracle: "pipeline-returns", Op: op, Impl: "panic", Detail: p})
+			return
+		}
+	case <-time.After(time.Duration(60+nfeat/100) * time.Second):
+		unmark()
+		r.count("gpkg-pipe", op, true)
+		r.violation(Violation{Oracle: "pipeline-returns", Op: op, Impl: "ProcessFeatures has not returned", Detail: fmt.Sprintf("after %d seconds; the goroutines of the pipeline are left behind", 60+nfeat/100)})
+		return
+	}
 	for _, tg := range tgs {
 		tg.Close()
 	}
-	unmark()
 	source.Close()
-	op := fmt.Sprintf("gpkg-pipe: %d features, 5 attribute columns incl. DATETIME and DATE (cap 8), %d real GeoPackage targets, page size %d", nfeat, ntargets, pagesize)
 	r.count("gpkg-pipe", op, true)
 	for tm := 0; tm < ntargets; tm++ {
 		got, err := readBack(filepath.Join(dir, fmt.Sprintf("dst_%d.gpkg", tm)), "polys", t.gcol)
